@@ -16,6 +16,7 @@ CONSTANTS
   StaleTicks = 100000
   MaxNow = 22
   FixD1 = TRUE
+  SimDepth = 0
   Msgs <- MsgsSched
   Apps <- AppsSmall
 CONSTRAINT TimeBound
